@@ -15,6 +15,9 @@ THEOREMS = [
     "Mpir.Binvert.mpn_binvert_correct_pinned",
     "Mpir.Binvert.mpn_binvert_value",
     "Mpir.Binvert.mipOf_eq_mpn_binvert",
+    "Mpir.Binvert.dc_bdiv_qr_n_spec",
+    "Mpir.Binvert.dc_bdiv_qr_n_unconditional",
+    "Mpir.Binvert.dc_bdiv_q_spec_partial",
 ]
 TRUSTED = ["hand-written model lean/Mpir/Model/Binvert.lean (schedule, base case, Newton step, last step, mpn_sb_bdiv_q loop for nn = dn); "
            "tied by the exact op bi_binvert (all n limbs, guard limbs around rp, up and the itch-sized scratch) and the predicate op bi_binvert_p"]
@@ -27,7 +30,8 @@ RULE = ("odd U of n limbs for n = 1..40, +-2 around DC_BDIV_Q_THRESHOLD, +-2 aro
         "rounding: m > newrn, the mpn_sub_1 fix-up shorter than rn); operands: random, all ones (U = -1: the product U*R is 0 modulo "
         "B^m - 1 and must come back as B^m - 1, not 0), 1, B^n/2 + 1, 1 + B^k, -1 + B^k pieces, runs of ones/zeros, U = inverse of a sparse number")
 
-PINS = [("mpn/generic/binvert.c", None), ("mpn/generic/sb_bdiv_q.c", "mpn_sb_bdiv_q")]
+PINS = [("mpn/generic/binvert.c", None), ("mpn/generic/sb_bdiv_q.c", "mpn_sb_bdiv_q"),
+        ("mpn/generic/dc_bdiv_qr_n.c", "mpn_dc_bdiv_qr_n")]
 
 def operands(rng, n, few=False):
     Bn = 1 << (64 * n)
@@ -42,6 +46,16 @@ def val_runs(rng, n):
     v = 0
     for i, x in enumerate(rand_limbs(rng, n, "runs")): v |= x << (64 * i)
     return v
+
+def qr_threshold(ctx, T):
+    """DC_BDIV_QR_THRESHOLD of the tree under test: <build>/gmp-mparam.h, else gmp-impl.h: 3 * MUL_KARATSUBA_THRESHOLD"""
+    import os, re
+    root = getattr(ctx, "build", None) if ctx is not None else None
+    if not root: root = os.environ.get("VERIF_REPO", "/repo")
+    try: s = open(os.path.join(root, "gmp-mparam.h"), errors="replace").read()
+    except OSError: s = ""
+    m = re.search(r"^#\s*define\s+DC_BDIV_QR_THRESHOLD\s+(\d+)\b", s, re.M)
+    return int(m.group(1)) if m else 3 * T.get("MUL_KARATSUBA_THRESHOLD", 32)
 
 def gen_ops(rng, tier, ctx=None):
     import props.c08_powm as P
@@ -66,3 +80,20 @@ def gen_ops(rng, tier, ctx=None):
         yield "bi_binvert_p %s" % vec(limbs_of(rng.getrandbits(64 * n) | 1, n))
     for n in list(range(1, 300)) + [rng.randrange(300, 1 << 20) for _ in range(100)]:
         yield "bi_itch %x" % n
+    # mpn_dc_bdiv_q (the base case of mpn_binvert above DC_BDIV_Q_THRESHOLD, nn = dn; and nn > dn: the block loop)
+    qr = qr_threshold(ctx, T)
+    def special(n):
+        Bn = 1 << (64 * n)
+        return [rng.getrandbits(64 * n), Bn - 1, 1, 1 << (64 * n - 1), 1 << (64 * (n // 2)), val_runs(rng, n), 0]
+    for dn in sorted(set([6, 7, 8, 11] + P.around([dc], 6, 4000) + P.around([2 * dc], 6, 4000) + [4 * dc + 1] + ([qr, 2 * qr + 1] if not thor else list(range(6, 3 * dc))))):
+        for nn in sorted(set([dn, dn + 1, 2 * dn - 1, 2 * dn, 2 * dn + 1, 3 * dn + 2] if dn <= 2 * dc + 2 or thor else [dn, dn + 3])):
+            for N in special(nn)[: (7 if dn <= dc + 2 or thor else 3)]:
+                for D in (operands(rng, dn, few=True) if dn > 8 else operands(rng, dn)[:6]):
+                    D %= 1 << (64 * dn); D |= 1
+                    yield "bi_dc_bdiv_q %s %s" % (vec(limbs_of(N, nn)), vec(limbs_of(D, dn)))
+    # mpn_dc_bdiv_qr_n: sizes 2.., around 2x and 4x DC_BDIV_QR_THRESHOLD (one and two levels of recursion, odd/even splits)
+    for k in sorted(set([2, 3, 4, 5, 7, 16, 33] + P.around([2 * qr], 2, 4000) + [2 * qr + 5, 4 * qr, 4 * qr + 1, 4 * qr + 3] + (list(range(2, 2 * qr)) if thor else []))):
+        for N in special(2 * k)[: (7 if k <= 2 * qr + 2 else 4)]:
+            for D in operands(rng, k, few=True) + [1 | (1 << (64 * k - 1))]:
+                D %= 1 << (64 * k); D |= 1
+                yield "bi_dc_bdiv_qr_n %x %s %s" % (qr, vec(limbs_of(N, 2 * k)), vec(limbs_of(D, k)))
